@@ -8,6 +8,30 @@ KEYS = [b"a", b"b", b"key", b"", b"a\x00b", b"lit0", b"ab"]
 STR_COPY_KINDS = ["sc", "sv", "sp", "sj"]
 
 
+def _s(b):
+    return ("S", b, [])
+
+
+# deserialization into a value inside a document: (format, input bytes, snapshot of the value it denotes)
+DESER = [
+    ("j", b'[1,"abc",{"k":2,"abc":-3}]', ("A", None, [("U", 1, []), _s(b"abc"), ("O", None, [(b"k", ("U", 2, [])), (b"abc", ("I", -3, []))])])),
+    ("j", b'{"a":"lit0","b":[true,null],"a":1.5}', ("O", None, [(b"a", ("f", 0x3FC00000, [])), (b"b", ("A", None, [("T", None, []), ("N", None, [])]))])),
+    ("j", b' "hi" ', _s(b"hi")),
+    ("j", b"42", ("U", 42, [])),
+    ("j", b'{"key":{"key":"key"}}', ("O", None, [(b"key", ("O", None, [(b"key", _s(b"key"))]))])),
+    ("j", b"[]", ("A", None, [])),
+    ("j", b"[[],{},[[18446744073709551615]]]", ("A", None, [("A", None, []), ("O", None, []), ("A", None, [("A", None, [("U", 18446744073709551615, [])])])])),
+    ("m", bytes.fromhex("9301a361626382a16b02a3616263fd"), ("A", None, [("I", 1, []), _s(b"abc"), ("O", None, [(b"k", ("I", 2, [])), (b"abc", ("I", -3, []))])])),
+    ("m", bytes.fromhex("a26869"), _s(b"hi")),
+    ("m", bytes.fromhex("cd0100"), ("U", 256, [])),
+    ("m", bytes.fromhex("81a36b657981a36b6579a36b6579"), ("O", None, [(b"key", ("O", None, [(b"key", _s(b"key"))]))])),
+    ("m", bytes.fromhex("90"), ("A", None, [])),
+    ("m", bytes.fromhex("92c40201029180"), ("A", None, [("R", bytes.fromhex("c4020102"), []), ("A", None, [("O", None, [])])])),
+]
+# inputs that are not accepted (no prediction: compared with the model only)
+DESER_BAD = [("j", b'[1,"ab'), ("j", b'{"a":1 "b"}'), ("j", b"[[[[[[[[[[[[1]]]]]]]]]]]]"), ("j", b""), ("m", bytes.fromhex("93a2")), ("m", bytes.fromhex("c1")), ("m", bytes.fromhex("81c001")), ("m", b"")]
+
+
 class Node:
     __slots__ = ("kind", "val", "items", "alive", "doc")
 
@@ -291,7 +315,7 @@ def gen_history(rnd, nops, geo, strkind=None, ops_weights=None, obs_every=1, nul
             return k, str(rnd.choice(cands))
     void_kinds = ("null", "sl", "sc", "sv", "sp", "sj", "sjl", "raw", "ref", "doc")
     choices = ops_weights or ["root", "root", "mem", "memw", "elem", "elemw", "set", "set", "setm", "setm", "sete", "add", "add", "addv", "toarr", "toobj", "remi", "remk",
-                              "remi", "remk", "setm", "add", "memw", "elemw", "clear", "cleardoc", "copydoc", "swapdoc", "shrink"]
+                              "remi", "remk", "setm", "add", "memw", "elemw", "clear", "cleardoc", "copydoc", "swapdoc", "shrink", "deser", "deser"]
     count = 0
     for _ in range(nops):
         op = rnd.choice(choices)
@@ -400,6 +424,14 @@ def gen_history(rnd, nops, geo, strkind=None, ops_weights=None, obs_every=1, nul
             if d != e:
                 sd = snapshot(docs[d].root); se = snapshot(docs[e].root); clear(docs[d].root); clear(docs[e].root); build(docs[d].root, se); build(docs[e].root, sd)
             emit("swapdoc %d %d" % (d, e), "")
+        elif op == "deser" and U:
+            r = rnd.choice(U); n, d = refs[r]
+            fmt, data, snap = rnd.choice(DESER)
+            if n is None:
+                emit("deser%s %d 10 %s" % (fmt, r, data.hex()), "NoMemory")
+            else:
+                clear(n); build(n, snap)
+                emit("deser%s %d 10 %s" % (fmt, r, data.hex()), "Ok")
         elif op == "shrink":
             d = rnd.randrange(3)
             for i in range(10):        # a reallocating shrink moves the last pool: references other than the root are dropped
@@ -500,9 +532,12 @@ def gen_fault_history(rnd, nops, geo, sess):
         bound = [i for i, s in enumerate(live) if s[0] in "RS"]
         docof = {i: int(s[1:]) for i, s in enumerate(live) if s[0] in "RSu" and len(s) > 1}
         op = rnd.choice(["root", "root", "mem", "memw", "memw", "elem", "elemw", "set", "set", "set", "setm", "setm", "setm", "sete", "add", "add", "add", "add", "addv", "toarr", "toobj",
-                         "remi", "remi", "remk", "remk", "clear", "cleardoc", "shrink"])
+                         "remi", "remi", "remk", "remk", "clear", "cleardoc", "shrink", "deser", "deser", "deser"])
         r = rnd.randrange(10)
-        if op == "root":
+        if op == "deser" and usable:
+            fmt, data = rnd.choice([(x[0], x[1]) for x in DESER] * 3 + DESER_BAD)
+            do("deser%s %d %d %s" % (fmt, rnd.choice(usable), rnd.choice([10, 10, 2]), data.hex() or "-"))
+        elif op == "root":
             do("root %d %d" % (r, rnd.choice([fault_doc, fault_doc, rnd.randrange(3)])))
         elif op in ("mem", "memw") and usable:
             r2 = prefer(usable, "ON")
